@@ -222,7 +222,7 @@ func (f *Frame) callRepo(i *ssa.Call, g *ssa.Function, args []Val, bindings []Va
 	if fc2 != nil && !fc2.Inline {
 		return f.callContract(i, g, fc2, key, args, Val{}, st, *r)
 	}
-	if c.canInline(g, f.depth) {
+	if c.canInline(g, f.depth) || (f.topFrame().fc != nil && f.depth < 4 && c.inlining[g] == 0 && c.loopInlinee(i) == g && instrCount(g) < 400) {
 		return f.inlineCall(i, g, args, bindings, st, r)
 	}
 	return f.havocCall(i, c.eng.modsetList(g), g.Signature.Results(), st, *r, key)
@@ -247,6 +247,14 @@ func (c *Ctx) canInline(g *ssa.Function, depth int) bool {
 	return n < 400
 }
 
+func instrCount(g *ssa.Function) int {
+	n := 0
+	for _, b := range g.Blocks {
+		n += len(b.Instrs)
+	}
+	return n
+}
+
 func (f *Frame) inlineCall(i *ssa.Call, g *ssa.Function, args []Val, bindings []Val, st *State, r *string) Val {
 	c := f.c
 	if c.inlining == nil {
@@ -259,6 +267,11 @@ func (f *Frame) inlineCall(i *ssa.Call, g *ssa.Function, args []Val, bindings []
 	f.exprN["inl:"+short]++
 	g2 := c.newFrame(g, f.depth+1, fmt.Sprintf("%sinl:%s#%d/", f.prefix, short, f.exprN["inl:"+short]))
 	g2.fc = nil
+	if hasLoop(g) {
+		g2.up = f
+		g2.upBlk = f.cur
+		g2.ordBase = f.ordBaseFor(i)
+	}
 	work := st.clone()
 	g2.run(work, *r, args, bindings)
 	if len(g2.rets) == 0 {
@@ -684,6 +697,27 @@ func (f *Frame) callLib(i *ssa.Call, g *ssa.Function, args []Val, st *State, r s
 			return f.newError(st, r, t)
 		}
 		return tv(t, "Str")
+	case "fmt.Fprintf":
+		// fmt.Fprintf(&sb, format, args...) with a strings.Builder: one write of the formatted string
+		if mi, ok := com.Args[0].(*ssa.MakeInterface); ok && strings.HasSuffix(mi.X.Type().String(), "strings.Builder") {
+			if format, ok := constString(com.Args[1]); ok {
+				var ts, ss []string
+				for _, a := range args[2].Arr {
+					if a.T == "" {
+						c.errorf("non-scalar Fprintf argument")
+						continue
+					}
+					ts = append(ts, a.T)
+					ss = append(ss, a.S)
+				}
+				t := c.eng.sprintfTerm(format, ts, ss)
+				f.safe("nil", i.Pos(), r, "(not (= "+args[0].T+" 0))", isCallExpr)
+				f.builderWrite(st, args[0], t, "(slen "+t+")")
+				return Val{Tup: []Val{tv("(slen "+t+")", "Int"), tv("0", "Int")}}
+			}
+		}
+		c.errorf("fmt.Fprintf on something other than a strings.Builder with a literal format in %s", f.fn.Name())
+		return Val{Tup: []Val{tv(c.fresh("n", "Int"), "Int"), tv("0", "Int")}}
 	case "errors.New":
 		return f.newError(st, r, args[0].T)
 	case "(*strings.Builder).WriteString":
